@@ -49,9 +49,13 @@ def _one(args):
         try:
             ctx, _ = analyse(prop, repo)
         except AnalysisError as e:
+            if m.get('benign'): return m['id'], 'false-alarm', 'ANALYSIS-ERROR ' + str(e)
             # fail-closed is acceptable only when the mutant says so
             return m['id'], ('detected' if m.get('expect') == 'ANALYSIS-ERROR' else 'error'), str(e)
         new = [o for o in ctx.obs if not o.ok and o.key not in base_failed]
+        if m.get('benign'):
+            # behaviour-preserving variant: the rules must stay silent
+            return m['id'], ('detected' if not new else 'false-alarm'), '; '.join(o.key for o in new)[:300]
         exp = m.get('expect', '')
         hit = [o for o in new if exp in o.key]
         if hit: return m['id'], 'detected', hit[0].key
@@ -77,5 +81,6 @@ def run_for(prop, repo, emit=print, jobs=None):
             if status == 'detected': res['detected'] += 1
             elif status == 'stale': res['stale'].append(mid)
             elif status == 'missed': res['missed'].append(mid)
+            elif status == 'false-alarm': res['clean_alarm'].append(mid)
             else: res['errors'].append(mid); res['missed'].append(mid)
     return res
